@@ -3,3 +3,4 @@ import UF.Driver.Ops.GroupC
 import UF.Props.C07
 import UF.Props.C08
 import UF.Props.C09
+import UF.Props.C06
